@@ -94,7 +94,8 @@ def run(an: Analysis, rep):
     for V in VERSIONS:
         rep.run(c11.r113, an, shf, V, c01._dispositions(an, V)[0])
     from . import c08
-    rep.run(c08.r084, an, SharedRules(rep, "R05.C", "the key that decides which constants are one table entry tells apart what CPython tells apart (shared with C08's R08.4): normalize strips the overrides that pin duplicates, so a coarser key merges distinct constants / nested code objects"), rule="R05.C")
+    rep.run(c08.r084, an, SharedRules(rep, "R05.C", "the key that decides which constants are one table entry tells apart what CPython tells apart (shared with C08's R08.4): normalize strips the overrides that pin duplicates, so a coarser key merges distinct constants / nested code objects"), rule="R05.C", nan_sign_matters=True)
+    rep.run(c01.r01a, an, SharedRules(rep, "R05.N", "the decoder keeps the line of every code unit (shared with C01's R01.A): 'the same line for every instruction', 'traced line events'"), rule="R05.N")
     rep.run(c03.r035, an, SharedRules(rep, "R05.W", "operand width thresholds and unit emission (shared with C03's R03.5): normalize strips the recorded widths, so every operand is re-emitted at the width this function gives"))
     rep.run(c03.r038, an, SharedRules(rep, "R05.K", "lines keyed at the first code unit of an instruction (shared with C03's R03.8): 'the same line for every instruction' and the same traced line events"))
     rep.run(c03.r037, an, SharedRules(rep, "R05.R", "re-layout after normalization (shared with C03's R03.7): with the width overrides stripped, jumps still land on their targets"))
